@@ -2997,7 +2997,8 @@ def upgrade_prefix_map(prefix_map: Mapping[str, str]) -> list[Record]:
     """
     uri_prefix_to_curie_synonyms = defaultdict(list)
     for curie_prefix, uri_prefix in prefix_map.items():
-        uri_prefix_to_curie_synonyms[uri_prefix].append(curie_prefix)
+        # group on plain strings: subclasses like rdflib.URIRef don't compare equal to the string they hold
+        uri_prefix_to_curie_synonyms[str(uri_prefix)].append(str(curie_prefix))
     priority_prefix_map = {
         uri_prefix: sorted(curie_prefixes)
         for uri_prefix, curie_prefixes in uri_prefix_to_curie_synonyms.items()
